@@ -22,12 +22,19 @@ import (
 // and the driver verb c15_dump reports what the generated packages registered.
 type compiler struct {
 	dir, thriftgo, repo string
-	st                  *stats
 }
 
-func newCompiler(dir, thriftgo, repo string, st *stats) *compiler {
+func newCompiler(dir, thriftgo, repo string) *compiler {
 	os.MkdirAll(dir, 0o755)
-	return &compiler{dir: dir, thriftgo: thriftgo, repo: repo, st: st}
+	return &compiler{dir: dir, thriftgo: thriftgo, repo: repo}
+}
+
+// compiled is the result of one program (produced on a goroutine of its own: nothing shared is
+// written; the counters are merged by the caller).
+type compiled struct {
+	cases    []*Case
+	counters map[string]int
+	log      string
 }
 
 type drvType struct {
@@ -83,8 +90,10 @@ func copyTree(src, dst string) error {
 	})
 }
 
-func (c *compiler) run(ctx *progCtx, key, root string) []*Case {
-	c.st.Compiled["programs"]++
+func (c *compiler) run(ctx *progCtx, key, root string) (res *compiled) {
+	res = &compiled{counters: map[string]int{}}
+	cnt := res.counters
+	cnt["programs"]++
 	mod := filepath.Join(c.dir, key)
 	idl := filepath.Join(mod, "idl")
 	if err := copyTree(root, idl); err != nil {
@@ -96,43 +105,46 @@ func (c *compiler) run(ctx *progCtx, key, root string) []*Case {
 	cmd.Dir = idl
 	cmd.Env = goEnv()
 	if out, err := cmd.CombinedOutput(); err != nil {
-		c.st.Compiled["rejected_by_thriftgo"]++
-		fmt.Fprintf(os.Stderr, "c15: %s: thriftgo: %v\n%s\n", ctx.name, err, tail(string(out), 600))
-		return nil
+		cnt["rejected_by_thriftgo"]++
+		res.log = fmt.Sprintf("c15: %s: thriftgo: %v\n%s\n", ctx.name, err, tail(string(out), 600))
+		return res
 	}
 	if _, err := os.Stat(outDir); err != nil {
-		c.st.Compiled["rejected_by_thriftgo"]++
-		return nil
+		cnt["rejected_by_thriftgo"]++
+		return res
 	}
 	b := gendrv.New(mod, c.thriftgo, c.repo)
+	b.Jobs = 2
 	b.Units = []*gendrv.Unit{{Key: key}}
 	if err := b.Build(); err != nil {
 		// generated code that does not compile is property C01's subject
-		c.st.Compiled["generated_code_does_not_compile"]++
-		fmt.Fprintf(os.Stderr, "c15: %s: %s\n", ctx.name, tail(err.Error(), 1500))
-		return nil
+		cnt["generated_code_does_not_compile"]++
+		res.log = fmt.Sprintf("c15: %s: %s\n", ctx.name, tail(err.Error(), 1500))
+		return res
 	}
-	res, err := b.Run([]gendrv.Cmd{{Verb: "c15_dump", Args: []string{key, prefix}}})
+	raw, err := b.Run([]gendrv.Cmd{{Verb: "c15_dump", Args: []string{key, prefix}}})
 	if err != nil {
 		// init() of a generated package panicked (BuildFileDescriptor): an observation
-		c.st.Compiled["driver_failed"]++
-		c.st.Panics++
+		cnt["driver_failed"]++
+		cnt["panics"]++
 		cs := &Case{Kind: "file", Via: "compiled", Program: ctx.name, File: ctx.main.Filename,
 			coq: fmt.Sprintf("FileCase 1%%N %s None None true", cb(ctx.main.Filename)), Observed: tail(err.Error(), 1500)}
-		return []*Case{cs}
+		res.cases = []*Case{cs}
+		return res
 	}
 	var out drvOut
-	if err := json.Unmarshal(res[0], &out); err != nil {
+	if err := json.Unmarshal(raw[0], &out); err != nil {
 		fatal("c15: driver output:", err)
 	}
 	if out.Panic {
-		c.st.Compiled["driver_panic"]++
-		c.st.Panics++
+		cnt["driver_panic"]++
+		cnt["panics"]++
 		cs := &Case{Kind: "file", Via: "compiled", Program: ctx.name, File: ctx.main.Filename,
 			coq: fmt.Sprintf("FileCase 1%%N %s None None true", cb(ctx.main.Filename)), Observed: out.Msg}
-		return []*Case{cs}
+		res.cases = []*Case{cs}
+		return res
 	}
-	c.st.Compiled["built"]++
+	cnt["built"]++
 	byName := map[string]*parser.Thrift{}
 	for _, t := range ctx.all {
 		byName[t.Filename] = t
@@ -142,7 +154,7 @@ func (c *compiler) run(ctx *progCtx, key, root string) []*Case {
 	for _, f := range out.Files {
 		t := byName[f.Dump.Filepath]
 		seen[f.Dump.Filepath] = true
-		c.st.Compiled["files"]++
+		cnt["files"]++
 		mk := func(kind, coq string, obs interface{}) *Case {
 			cs := &Case{Kind: kind, Via: "compiled", Program: ctx.name, File: f.Dump.Filepath, coq: coq, Observed: obs}
 			if t != nil {
@@ -156,21 +168,21 @@ func (c *compiler) run(ctx *progCtx, key, root string) []*Case {
 			var fo *found
 			if l.Found != nil {
 				fo = &found{l.Found[0], l.Found[1]}
-				c.st.LookupsFound++
+				cnt["lookups_found"]++
 				if l.Found[0] != f.Dump.Filepath {
-					c.st.LookupsAcrossFiles++
+					cnt["lookups_found_in_another_file"]++
 				}
 			}
-			c.st.Lookups++
+			cnt["lookups"]++
 			qs = append(qs, fmt.Sprintf("(%s, %s, %s)", l.Kind, cb(l.Name), foundCoq(fo)))
 		}
 		if len(qs) > 0 {
 			cases = append(cases, mk("lookup", fmt.Sprintf("LookupCase %s %s", cb(f.Dump.Filepath), coqfmt.List(qs)), f.Lookups))
 		}
 		for _, ty := range f.Types {
-			c.st.Compiled["types"]++
+			cnt["types"]++
 			if ty.Shared {
-				c.st.Compiled["typedefs_sharing_a_go_type"]++
+				cnt["typedefs_sharing_a_go_type"]++
 			}
 			// a typedef is a Go alias: two typedefs of one type are one Go type, which the
 			// registry can map to one of them only (model: go_type_bijection's premise)
@@ -182,13 +194,14 @@ func (c *compiler) run(ctx *progCtx, key, root string) []*Case {
 	// every file of the program must have registered itself
 	for _, t := range ctx.all {
 		if !seen[t.Filename] {
-			c.st.Compiled["file_not_registered"]++
+			cnt["file_not_registered"]++
 			cases = append(cases, &Case{Kind: "file", Via: "compiled", Program: ctx.name, File: t.Filename, DupBase: dupBasenames(t),
 				coq: fmt.Sprintf("FileCase 1%%N %s None None true", cb(t.Filename)), Observed: "the generated package did not register a descriptor for this file"})
 		}
 	}
 	os.RemoveAll(mod)
-	return cases
+	res.cases = cases
+	return res
 }
 
 func tail(s string, n int) string {
